@@ -121,6 +121,23 @@ CHECKS = {
              "(substitution, comp_mpoly) and 'staged = at once' are modelled with the proved C01 operations and compared "
              "with /repo on every run, and checked as relations on /repo, but not yet stated as theorems; independence "
              "of the numeric carrier type (int / numpy scalar / float) is checked on /repo only (the model erases the carrier)."),
+    "C09": dict(
+        technique="Coq proof: the two wrapper skeletons (one re-arrangement of the whole storage; align-then-join by columns) "
+                  "move whole polynomial elements for EVERY index map (absE of result element j = absE of the source element); "
+                  "bridge lemma over the skeleton classification of the 26 anchored files regenerated by ast; numpy's own "
+                  "function on index arrays as placement oracle; vm_compute correspondence",
+        text="Theorems (Props/P_C09.v, closed under the global context): for every index map sigma, shape, operand and option "
+             "record, the M2 wrapper (apply one re-arrangement to the storage, re-wrap with the operand's names) returns a "
+             "well-formed array of the requested shape whose element j is exactly the operand's element sigma(j) (0 for a fill "
+             "slot), never fails on well-formed input, and keeps the names (retain_names on); the M1 wrapper (align exponents, "
+             "join column-wise) returns element (k,i) of the operands at j for every placement tau, with the union of names; "
+             "the index maps of reshape/ravel/flatten (identity), broadcasting (bidx), transposition (axis permutation) and "
+             "first-axis concatenation are characterised. Bridge: each of the 26 files applies the numpy function of its own "
+             "name to the operand's storage and re-wraps with the operand's names.",
+        note="Trusted: Coq kernel+VM, MathComp/SsrMultinomials; translator shape_tr.py; that numpy re-arranges structured "
+             "records as it re-arranges integers (the placement oracle runs the same numpy function on index arrays) — the "
+             "index maps of repeat/tile/split/diag/choose/advanced indexing are numpy's, not modelled. dtype preservation is "
+             "checked on /repo only. Known finding D21 (repeat default axis)."),
     "C08": dict(
         technique="Coq proof by evaluation over regenerated finite tables (registries, reduce/accumulate maps, numpy's "
                   "overridable callables) lifted with allP; bridge over the dispatch control flow of baseclass.py; "
